@@ -69,7 +69,27 @@ var oracleSources = []string{"elys", "elys", "band", "ys", "x", "lys", "elysium"
 
 func genOracleWalk(r *rand.Rand, n int) []Step {
 	var st []Step
-	px := func() string { return fmt.Sprintf("%d.%02d", 1+r.Intn(3000), r.Intn(100)) }
+	px := func() string {
+		if r.Intn(3) == 0 { // feeders re-send unchanged quotes all the time (a stable coin is 1.00 block after block)
+			return pick(r, "1.00", "1.00", "2.50", "3000.00")
+		}
+		return fmt.Sprintf("%d.%02d", 1+r.Intn(3000), r.Intn(100))
+	}
+	if genIndex%8 == 2 {
+		// scripted corner: the same quote re-fed block after block (single and multi-feed messages) across the expiry of the first
+		// entry, with an older band quote of the asset around
+		a, v := pick(r, "ETH", "WBTC", "ATOM"), pick(r, "1.00", "2500.00")
+		st = append(st, Step{"a": "feed", "u": "feeder", "asset": a, "src": "band", "px": px()}, Step{"a": "feedMulti", "u": "feeder", "feeds": []any{[]any{a, "elys", v}}}, Step{"a": "block", "dt": float64(5)})
+		for k := 0; k < 5; k++ {
+			if k%2 == 0 {
+				st = append(st, Step{"a": "feedMulti", "u": "feeder", "feeds": []any{[]any{a, "elys", v}, []any{pick(r, oracleAssets...), "elys", px()}}})
+			} else {
+				st = append(st, Step{"a": "feed", "u": "feeder", "asset": a, "src": "elys", "px": v})
+			}
+			st = append(st, Step{"a": "block", "dt": float64(pick(r, 5, 20, 30))})
+		}
+		st = append(st, Step{"a": "block", "dt": float64(5)})
+	}
 	if genIndex%8 == 4 {
 		// scripted corner: feeds at block times whose big-endian bytes contain the key separator '/' (0x2F), with an older
 		// live entry of the same source and a band entry of the same asset around
@@ -122,6 +142,17 @@ func genOracleWalk(r *rand.Rand, n int) []Step {
 func genBatchWalk(r *rand.Rand, n int) []Step {
 	var st []Step
 	users := []string{"u1", "u2", "u3"}
+	if genIndex%6 == 3 {
+		// scripted corner: the oracle pool 3 is pushed far off its target weights by one big trade; then several exact-in requests in
+		// the weight-RECOVERING direction share a block, their minimum a little above what the pool itself is estimated to pay
+		// (the recovery bonus comes from the pool's treasury and the first request executed may leave nothing for the next)
+		st = append(st, Step{"a": "swapIn", "u": "u2", "p": float64(3), "din": "uusdc", "sz": pick(r, "x2", "x2", "big"), "limit": "loose"}, Step{"a": "block", "dt": float64(5)})
+		for k := 0; k < 2; k++ {
+			st = append(st, Step{"a": "swapIn", "u": "u3", "p": float64(3), "din": "uusdt", "sz": pick(r, "s2", "s3"), "limit": pick(r, "plus01", "plus03", "plus1")},
+				Step{"a": "swapIn", "u": "u1", "p": float64(3), "din": "uusdt", "sz": pick(r, "s2", "s1"), "limit": pick(r, "plus01", "plus03", "plus1", "plus3")},
+				Step{"a": "swapIn", "u": "u2", "p": float64(3), "din": "uusdt", "sz": "s2", "limit": pick(r, "tight", "plus01")}, Step{"a": "block", "dt": float64(5)})
+		}
+	}
 	for len(st) < n {
 		k := 2 + r.Intn(5)
 		for i := 0; i < k; i++ {
